@@ -34,6 +34,16 @@ struct ExpandedColor {
   uint64_t a;
 };
 
+// Skips bytes in a stream that can't seek (a pipe, for example) by reading them
+static void fskipx(FILE* f, size_t bytes) {
+  uint8_t buffer[0x100];
+  while (bytes) {
+    size_t chunk_bytes = (bytes < sizeof(buffer)) ? bytes : sizeof(buffer);
+    freadx(f, buffer, chunk_bytes);
+    bytes -= chunk_bytes;
+  }
+}
+
 static ExpandedColor expand_color(uint32_t c) {
   return {(c >> 24) & 0xFF, (c >> 16) & 0xFF, (c >> 8) & 0xFF, c & 0xFF};
 }
@@ -352,7 +362,14 @@ void Image::load(FILE* f) {
     }
 
     bool reverse_row_order = header.info_header.height < 0;
-    fseek(f, header.file_header.data_offset, SEEK_SET);
+    if (fseek(f, header.file_header.data_offset, SEEK_SET) != 0) {
+      // f can't seek; the pixel data can still be reached if it's ahead of us
+      size_t header_bytes = sizeof(header.file_header) + header.info_header.header_size;
+      if (header.file_header.data_offset < header_bytes) {
+        throw runtime_error("bitmap data overlaps header and stream is not seekable");
+      }
+      fskipx(f, header.file_header.data_offset - header_bytes);
+    }
     bool has_alpha;
     int32_t w = header.info_header.width;
     int32_t h = header.info_header.height * (reverse_row_order ? -1 : 1);
@@ -383,8 +400,8 @@ void Image::load(FILE* f) {
           new_data[target_y_offset + x_offset + 1] = row_data[src_x_offset + 1];
           new_data[target_y_offset + x_offset + 0] = row_data[src_x_offset + 2];
         }
-        if (row_padding_bytes) {
-          fseek(f, row_padding_bytes, SEEK_CUR);
+        if (row_padding_bytes && (fseek(f, row_padding_bytes, SEEK_CUR) != 0)) {
+          fskipx(f, row_padding_bytes);
         }
       }
 
